@@ -1,13 +1,20 @@
 // Driver for C35: drives the real signingDoneCheck (pkg/tbtc/signing_done.go) through a
-// scripted broadcast channel.  A case is one signing attempt (group seats -> operators, the
-// attempt's included members, message, attempt number, timeout block) and a history of
-// messages in two phases: phase 1 is delivered and fully processed before waitUntilAllDone
-// starts, phase 2 arrives while it is running.  Seats/operators/messages/signatures become
-// small N identifiers.  Synchronisation is by explicit conditions only: a sentinel message
-// whose Payload() is called by the listener goroutine tells that everything before it has
-// been processed; a TimedOut observation is only reported when the confirmations were
-// incomplete (read under the mutex) after >= 3 check intervals, otherwise the case is
-// inconclusive, retried once with 4x the wait and then skipped.
+// scripted broadcast channel.  A case is a HISTORY of 1-4 signing attempts run on ONE
+// signingDoneCheck (one MembershipValidator, one broadcast channel), the way the signing retry
+// loop uses it: listen() per attempt, then waitUntilAllDone().  Every attempt has its own
+// arguments (message, attempt number, timeout block, included members) and its own script of
+// network messages in two phases: phase 1 is delivered and fully processed before
+// waitUntilAllDone starts, phase 2 arrives while it is running.  Scripts contain valid
+// confirmations, confirmations from excluded members, stale ones carrying an earlier attempt
+// number, verbatim late arrivals of the previous attempt's messages, wrong message /
+// signature / seat, duplicates.  Seats/operators/messages/signatures become small N
+// identifiers.  Synchronisation is by explicit conditions only: every message is followed by
+// a sentinel whose Payload() is called by the listener goroutine once everything before it
+// has been processed; a TimedOut observation is only reported when the confirmations were
+// incomplete (read under the mutex) after >= 3 check intervals with every message processed,
+// otherwise the attempt is inconclusive: the history is retried once with 4x the wait and
+// then cut before that attempt.  The next attempt starts only when the previous listener has
+// provably nothing in flight (otherwise the history is cut after the attempt).
 package main
 
 import (
@@ -42,24 +49,35 @@ type msgIn struct {
 	Sig     int    `json:"sig"` // 0: nil signature
 }
 
+// one attempt: the arguments of listen() and the messages delivered during the attempt
+type attemptIn struct {
+	Message int     `json:"message"`
+	Attempt uint64  `json:"attempt"`
+	Timeout uint64  `json:"timeout"`
+	Members []int   `json:"members"` // the attempt's included members (uint8 values)
+	Phase1  []msgIn `json:"phase1"`
+	Phase2  []msgIn `json:"phase2"`
+}
+
 type input struct {
-	Operators []int   `json:"operators"` // operator of seat i+1 (ids >= 1)
-	Message   int     `json:"message"`
-	Attempt   uint64  `json:"attempt"`
-	Timeout   uint64  `json:"timeout"`
-	Members   []uint8 `json:"members"` // the attempt's included members
-	Phase1    []msgIn `json:"phase1"`
-	Phase2    []msgIn `json:"phase2"`
+	Operators []int       `json:"operators"` // operator of seat i+1 (ids >= 1)
+	Attempts  []attemptIn `json:"attempts"`  // in order, on ONE signingDoneCheck
 }
 
 type observed struct {
-	Outcome  string  `json:"outcome"` // Done | ErrMismatch | TimedOut | Panic
-	Sig      int     `json:"sig,omitempty"`
-	End      uint64  `json:"end,omitempty"`
-	Text     string  `json:"text,omitempty"`
-	Signers1 []int   `json:"doneSignersAfterPhase1"`
-	Signers  []int   `json:"doneSignersAtEnd"`
-	Expected int     `json:"expectedSignersCount"`
+	Outcome    string `json:"outcome"` // Done | ErrMismatch | TimedOut | Panic
+	Sig        int    `json:"sig,omitempty"`
+	End        uint64 `json:"end,omitempty"`
+	Text       string `json:"text,omitempty"`
+	Signers1   []int  `json:"doneSignersAfterPhase1"`
+	Signers    []int  `json:"doneSignersAtEnd"`
+	Expected   int    `json:"expectedSignersCount"`
+	Delivered2 int    `json:"phase2Delivered"` // phase 2 messages handed to the listener before the attempt ended
+}
+
+type history struct {
+	Attempts []observed `json:"attempts"`
+	Cut      string     `json:"cut,omitempty"` // why later attempts of the script were not run
 }
 
 // ---- fakes
@@ -179,39 +197,45 @@ var logger = golog.Logger("verif-c35")
 
 const checkInterval = 100 * time.Millisecond // signingDoneCheckInterval
 
-// one real run; wait = how long to keep waitUntilAllDone ticking after the last message was
-// processed.  inconclusive: an explicit condition was not reached in time.
-func runOnce(in input, wait time.Duration) (obs observed, inconclusive bool) {
+type attemptStatus int
+
+const (
+	stOK           attemptStatus = iota // observation valid, the object is quiescent
+	stStop                              // observation valid, but a message may still be in flight: do not continue
+	stInconclusive                      // no observation
+)
+
+func newSentinel() *fakeMessage {
+	return &fakeMessage{payload: &otherPayload{}, seen: make(chan struct{})}
+}
+
+// one attempt on the long-lived check; wait = how long to keep waitUntilAllDone ticking after the
+// last message was processed.
+func runAttempt(sdc *tbtc.VerifC35DoneCheck, ch *fakeChannel, a attemptIn, wait time.Duration) (obs observed, st attemptStatus) {
 	defer func() {
 		if r := recover(); r != nil {
 			obs.Outcome, obs.Text = "Panic", fmt.Sprintf("panic: %v", r)
+			st = stStop
 		}
 	}()
-	ops := make([]chain.Address, len(in.Operators))
-	for i, id := range in.Operators {
-		ops[i] = fakeSigning{}.PublicKeyBytesToAddress(opKey(id))
-	}
-	mv := group.NewMembershipValidator(logger, ops, fakeSigning{})
-	ch := &fakeChannel{}
-	sdc := tbtc.VerifC35NewDoneCheck(len(in.Operators), ch, mv)
 	ctx, cancel := context.WithCancel(context.Background())
 	defer cancel()
-	members := make([]group.MemberIndex, len(in.Members))
-	for i, m := range in.Members {
+	members := make([]group.MemberIndex, len(a.Members))
+	for i, m := range a.Members {
 		members[i] = group.MemberIndex(m)
 	}
-	sdc.Listen(ctx, big.NewInt(int64(1000+in.Message)), in.Attempt, in.Timeout, members)
+	sdc.Listen(ctx, big.NewInt(int64(1000+a.Message)), a.Attempt, a.Timeout, members)
 
 	stall := 30 * time.Second
-	sync1 := &fakeMessage{payload: &otherPayload{}, seen: make(chan struct{})}
-	for _, m := range in.Phase1 {
+	for _, m := range a.Phase1 {
 		ch.deliver(netMessage(m))
 	}
+	sync1 := newSentinel()
 	ch.deliver(sync1)
 	select {
 	case <-sync1.seen:
 	case <-time.After(stall):
-		return obs, true
+		return obs, stInconclusive
 	}
 	_, s1 := sdc.DoneSigners()
 	for _, s := range s1 {
@@ -242,22 +266,38 @@ func runOnce(in input, wait time.Duration) (obs observed, inconclusive bool) {
 		}
 	}()
 
-	sync2 := &fakeMessage{payload: &otherPayload{}, seen: make(chan struct{})}
-	for i, m := range in.Phase2 {
+	var wr waitRes
+	got := false
+	quiescent := true // every message handed to the listener is known to be processed
+	inconclusive := false
+	for i, m := range a.Phase2 {
 		if i%2 == 1 {
 			time.Sleep(time.Duration(7+13*(i%5)) * time.Millisecond) // spread arrivals over the ticks
 		}
-		ch.deliver(netMessage(m))
-	}
-	ch.deliver(sync2)
-	var wr waitRes
-	got := false
-	select {
-	case <-sync2.seen:
-	case wr = <-resCh:
-		got = true
-	case <-time.After(stall):
-		return obs, true
+		if !ch.deliver(netMessage(m)) {
+			break // waitUntilAllDone has returned and cancelled the receiver: the attempt is over
+		}
+		obs.Delivered2++
+		sn := newSentinel()
+		if !ch.deliver(sn) {
+			quiescent = false
+			break
+		}
+		select {
+		case <-sn.seen:
+		case wr = <-resCh:
+			got = true
+			select {
+			case <-sn.seen:
+			case <-time.After(time.Second):
+				quiescent = false // the listener may have exited with the message unread, or not yet
+			}
+		case <-time.After(stall):
+			return obs, stInconclusive
+		}
+		if got {
+			break
+		}
 	}
 	if !got {
 		select {
@@ -273,7 +313,7 @@ func runOnce(in input, wait time.Duration) (obs observed, inconclusive bool) {
 			select {
 			case wr = <-resCh:
 			case <-time.After(stall):
-				return obs, true
+				return obs, stInconclusive
 			}
 		}
 	}
@@ -296,10 +336,38 @@ func runOnce(in input, wait time.Duration) (obs observed, inconclusive bool) {
 	default:
 		obs.Outcome, obs.Text = "Panic", "nil result with nil error"
 	}
-	if obs.Outcome != "TimedOut" {
-		inconclusive = false
+	if obs.Outcome == "TimedOut" && inconclusive {
+		return obs, stInconclusive
 	}
-	return obs, inconclusive
+	if !quiescent {
+		return obs, stStop
+	}
+	return obs, stOK
+}
+
+// the whole history on ONE signingDoneCheck.  Returns the observations of the attempts that
+// were run conclusively (a prefix of the script) and whether an attempt was inconclusive.
+func runHistory(in input, wait time.Duration) (h history, inconclusive bool) {
+	ops := make([]chain.Address, len(in.Operators))
+	for i, id := range in.Operators {
+		ops[i] = fakeSigning{}.PublicKeyBytesToAddress(opKey(id))
+	}
+	mv := group.NewMembershipValidator(logger, ops, fakeSigning{})
+	ch := &fakeChannel{}
+	sdc := tbtc.VerifC35NewDoneCheck(len(in.Operators), ch, mv)
+	for k, a := range in.Attempts {
+		obs, st := runAttempt(sdc, ch, a, wait)
+		if st == stInconclusive {
+			h.Cut = fmt.Sprintf("attempt %d inconclusive", k+1)
+			return h, true
+		}
+		h.Attempts = append(h.Attempts, obs)
+		if st == stStop && k+1 < len(in.Attempts) {
+			h.Cut = fmt.Sprintf("after attempt %d: listener not provably quiescent", k+1)
+			break
+		}
+	}
+	return h, false
 }
 
 func coqMsg(m msgIn) string {
@@ -320,92 +388,131 @@ func ints(v []int) string {
 	return lib.ListN(o)
 }
 
-func u8s(v []uint8) string {
-	o := make([]uint64, len(v))
-	for i, x := range v {
-		o[i] = uint64(x)
+func coqMsgs(ms []msgIn) string {
+	o := make([]string, len(ms))
+	for i, m := range ms {
+		o[i] = coqMsg(m)
 	}
-	return lib.ListN(o)
+	return lib.List(o)
 }
 
 type job struct {
 	id  string
 	in  input
-	obs observed
+	h   history
 	inc bool
 }
 
+func isConfirmationOf(a attemptIn, m msgIn) bool {
+	if !m.Done || m.Message != a.Message || m.Attempt != a.Attempt || m.End > a.Timeout || m.Sig == 0 {
+		return false
+	}
+	for _, x := range a.Members {
+		if x == int(m.Sender) {
+			return true
+		}
+	}
+	return false
+}
+
 func emit(j *job, em *lib.Emitter) {
-	in, obs := j.in, j.obs
+	in, h := j.in, j.h
 	if j.inc {
+		em.Tally("attempt-inconclusive-history-cut")
+	}
+	if h.Cut != "" && !j.inc {
+		em.Tally("history-cut-listener-not-quiescent")
+	}
+	if len(h.Attempts) == 0 {
 		em.Tally("inconclusive-skipped")
 		return
+	}
+	// what was actually run: the first len(h.Attempts) attempts, phase 2 as far as delivered
+	in.Attempts = append([]attemptIn{}, in.Attempts[:len(h.Attempts)]...)
+	var terms, outs []string
+	excludedSenders, dups, stale, concurrent, confirming := 0, 0, 0, 0, 0
+	for k := range in.Attempts {
+		a, obs := &in.Attempts[k], h.Attempts[k]
+		if obs.Delivered2 < len(a.Phase2) {
+			a.Phase2 = a.Phase2[:obs.Delivered2]
+			em.Tally("phase2-cut-by-result")
+		}
+		out := obs.Outcome
+		if out == "Done" {
+			sig := "None"
+			if obs.Sig != 0 {
+				sig = lib.Some(lib.N(uint64(obs.Sig)))
+			}
+			out = fmt.Sprintf("(Done %s %s)", sig, lib.N(obs.End))
+		}
+		terms = append(terms, fmt.Sprintf("{| c_params := {| p_ops := ops; p_message := %s; p_attempt := %s; p_timeout := %s; p_members := %s |}; "+
+			"c_phase1 := %s; c_phase2 := %s; c_signers1 := %s; c_out := %s; c_signers := %s |}",
+			lib.N(uint64(a.Message)), lib.N(a.Attempt), lib.N(a.Timeout), ints(a.Members),
+			coqMsgs(a.Phase1), coqMsgs(a.Phase2), ints(obs.Signers1), out, ints(obs.Signers)))
+		outs = append(outs, obs.Outcome)
+		// features
+		included := map[int]bool{}
+		for _, m := range a.Members {
+			included[m] = true
+		}
+		seen := map[uint8]bool{}
+		conf := map[uint8]bool{}
+		for _, m := range append(append([]msgIn{}, a.Phase1...), a.Phase2...) {
+			if !m.Done {
+				continue
+			}
+			if !included[int(m.Sender)] {
+				excludedSenders++
+			}
+			if seen[m.Sender] {
+				dups++
+			}
+			seen[m.Sender] = true
+			if m.Attempt < a.Attempt {
+				stale++
+			}
+			if isConfirmationOf(*a, m) {
+				conf[m.Sender] = true
+			}
+		}
+		if len(conf) >= 2 {
+			confirming++
+		}
+		if len(a.Phase2) > 0 {
+			concurrent++
+		}
+		em.Tally("attempt-out-" + obs.Outcome)
 	}
 	ops := make([]uint64, len(in.Operators))
 	for i, o := range in.Operators {
 		ops[i] = uint64(o)
 	}
-	p1 := make([]string, len(in.Phase1))
-	for i, m := range in.Phase1 {
-		p1[i] = coqMsg(m)
-	}
-	p2 := make([]string, len(in.Phase2))
-	for i, m := range in.Phase2 {
-		p2[i] = coqMsg(m)
-	}
-	out := obs.Outcome
-	if out == "Done" {
-		sig := "None"
-		if obs.Sig != 0 {
-			sig = lib.Some(lib.N(uint64(obs.Sig)))
-		}
-		out = fmt.Sprintf("(Done %s %s)", sig, lib.N(obs.End))
-	}
-	coq := fmt.Sprintf("{| c_params := {| p_ops := %s; p_message := %s; p_attempt := %s; p_timeout := %s; p_members := %s |}; "+
-		"c_phase1 := %s; c_phase2 := %s; c_signers1 := %s; c_out := %s; c_signers := %s |}",
-		lib.ListN(ops), lib.N(uint64(in.Message)), lib.N(in.Attempt), lib.N(in.Timeout), u8s(in.Members),
-		lib.List(p1), lib.List(p2), ints(obs.Signers1), out, ints(obs.Signers))
-	// features
-	included := map[uint8]bool{}
-	for _, m := range in.Members {
-		included[m] = true
-	}
-	fromExcluded, fromIncluded, dup := 0, 0, 0
-	seen := map[uint8]bool{}
-	for _, m := range append(append([]msgIn{}, in.Phase1...), in.Phase2...) {
-		if !m.Done {
-			continue
-		}
-		if included[m.Sender] {
-			fromIncluded++
-		} else {
-			fromExcluded++
-		}
-		if seen[m.Sender] {
-			dup++
-		}
-		seen[m.Sender] = true
-	}
-	em.Tally("out-" + obs.Outcome)
+	coq := fmt.Sprintf("(let ops := %s in {| c_attempts := %s |})", lib.ListN(ops), lib.List(terms))
+	em.Tally(fmt.Sprintf("attempts-%d", len(in.Attempts)))
 	em.Tally(fmt.Sprintf("seats-%03d", (len(in.Operators)+4)/5*5))
-	if len(in.Phase2) > 0 {
+	if concurrent > 0 {
 		em.Tally("with-concurrent-arrivals")
 	}
-	if fromExcluded > 0 {
+	if excludedSenders > 0 {
 		em.Tally("with-excluded-senders")
 	}
-	if dup > 0 {
+	if dups > 0 {
 		em.Tally("with-duplicates")
 	}
+	if stale > 0 {
+		em.Tally("with-stale-attempt-numbers")
+	}
+	multi := len(in.Attempts) >= 2
 	em.Case(lib.Case{
-		ID:         j.id,
-		Coq:        coq,
-		Key:        coq,
-		Nontrivial: fromIncluded >= 2 && (fromExcluded >= 1 || dup >= 1 || len(in.Phase2) > 0),
-		Sig: map[string]interface{}{"outcome": obs.Outcome, "excludedSenders": fromExcluded > 0,
-			"concurrent": len(in.Phase2) > 0},
+		ID:  j.id,
+		Coq: coq,
+		Key: coq,
+		Nontrivial: (multi && confirming >= 2 && (stale >= 1 || excludedSenders >= 1 || dups >= 1 || concurrent >= 1)) ||
+			(!multi && confirming >= 1 && (excludedSenders >= 1 || dups >= 1 || concurrent >= 1)),
+		Sig: map[string]interface{}{"outcomes": strings.Join(outs, ","), "attempts": len(in.Attempts),
+			"excludedSenders": excludedSenders > 0, "concurrent": concurrent > 0, "stale": stale > 0},
 		In:  in,
-		Out: obs,
+		Out: h,
 	})
 }
 
@@ -419,9 +526,10 @@ func runAll(jobs []*job, em *lib.Emitter, par int) {
 			defer wg.Done()
 			defer func() { <-sem }()
 			wait := 3*checkInterval + 50*time.Millisecond
-			j.obs, j.inc = runOnce(j.in, wait)
+			j.h, j.inc = runHistory(j.in, wait)
 			if j.inc {
-				j.obs, j.inc = runOnce(j.in, 4*wait)
+				// once more, on a new object, with 4x the wait; then keep the conclusive prefix
+				j.h, j.inc = runHistory(j.in, 4*wait)
 			}
 		}(j)
 	}
@@ -432,45 +540,65 @@ func runAll(jobs []*job, em *lib.Emitter, par int) {
 }
 
 // ---- generators
-func valid(in *input, sender uint8, sig int, end uint64) msgIn {
+func validMsg(ops []int, a *attemptIn, sender uint8, sig int, end uint64) msgIn {
 	author := 0
-	if int(sender) >= 1 && int(sender) <= len(in.Operators) {
-		author = in.Operators[sender-1]
+	if int(sender) >= 1 && int(sender) <= len(ops) {
+		author = ops[sender-1]
 	}
-	return msgIn{Done: true, Sender: sender, Author: author, Message: in.Message, Attempt: in.Attempt, End: end, Sig: sig}
+	return msgIn{Done: true, Sender: sender, Author: author, Message: a.Message, Attempt: a.Attempt, End: end, Sig: sig}
 }
 
-func randomCase(r *lib.Rng) input {
-	seats := r.Range(3, 9)
-	if r.Chance(1, 12) {
-		seats = r.Range(40, 100)
+func doneMsgs(a attemptIn) []msgIn {
+	var o []msgIn
+	for _, m := range append(append([]msgIn{}, a.Phase1...), a.Phase2...) {
+		if m.Done {
+			o = append(o, m)
+		}
 	}
-	nops := r.Range(1, seats)
-	if nops > 6 {
-		nops = 6
+	return o
+}
+
+// one attempt of a history; prev = the attempts scripted before it on the same object
+func randomAttempt(r *lib.Rng, ops []int, message int, attempt, timeout uint64, prev []attemptIn) attemptIn {
+	seats := len(ops)
+	a := attemptIn{Message: message, Attempt: attempt, Timeout: timeout}
+	// included members: a subset of the seats of size >= 1 (mostly a majority); on a retry often the
+	// previous attempt's set with one or two members swapped (same size)
+	if len(prev) > 0 && r.Chance(1, 2) {
+		pm := prev[len(prev)-1].Members
+		in := map[int]bool{}
+		for _, m := range pm {
+			in[m] = true
+		}
+		var out []int
+		for s := 1; s <= seats; s++ {
+			if !in[s] {
+				out = append(out, s)
+			}
+		}
+		a.Members = append([]int{}, pm...)
+		for n := r.Range(0, 2); n > 0 && len(out) > 0; n-- {
+			i, j := r.Intn(len(a.Members)), r.Intn(len(out))
+			a.Members[i], out[j] = out[j], a.Members[i]
+		}
+	} else {
+		perm := r.Perm(seats)
+		k := r.Range((seats+1)/2, seats)
+		if r.Chance(1, 6) {
+			k = r.Range(1, seats)
+		}
+		for _, p := range perm[:k] {
+			a.Members = append(a.Members, p+1)
+		}
 	}
-	in := input{Message: r.Range(1, 3), Attempt: uint64(r.Range(1, 5)), Timeout: uint64(r.Range(100, 2000))}
-	in.Operators = make([]int, seats)
-	for i := range in.Operators {
-		in.Operators[i] = 1 + r.Intn(nops)
-	}
-	// included members: a subset of the seats of size >= 1 (mostly a majority)
-	perm := r.Perm(seats)
-	k := r.Range((seats+1)/2, seats)
-	if r.Chance(1, 6) {
-		k = r.Range(1, seats)
-	}
-	for _, p := range perm[:k] {
-		in.Members = append(in.Members, uint8(p+1))
-	}
-	sort.Slice(in.Members, func(a, b int) bool { return in.Members[a] < in.Members[b] })
-	included := map[uint8]bool{}
-	for _, m := range in.Members {
+	sort.Ints(a.Members)
+	included := map[int]bool{}
+	for _, m := range a.Members {
 		included[m] = true
 	}
 	var excluded []uint8
 	for s := 1; s <= seats; s++ {
-		if !included[uint8(s)] {
+		if !included[s] {
 			excluded = append(excluded, uint8(s))
 		}
 	}
@@ -478,89 +606,159 @@ func randomCase(r *lib.Rng) input {
 	end := func() uint64 {
 		switch r.Intn(6) {
 		case 0:
-			return in.Timeout
+			return a.Timeout
 		case 1:
 			return 0
 		default:
-			return uint64(r.Intn(int(in.Timeout) + 1))
+			return uint64(r.Intn(int(a.Timeout) + 1))
 		}
 	}
+	member := func() uint8 { return uint8(a.Members[r.Intn(len(a.Members))]) }
 	// which included members confirm: mostly all, sometimes all but one or two
 	missing := map[uint8]bool{}
 	switch r.Intn(5) {
 	case 0:
-		missing[in.Members[r.Intn(len(in.Members))]] = true
+		missing[member()] = true
 	case 1:
-		missing[in.Members[r.Intn(len(in.Members))]] = true
-		missing[in.Members[r.Intn(len(in.Members))]] = true
+		missing[member()] = true
+		missing[member()] = true
 	}
 	var msgs []msgIn
-	for _, m := range in.Members {
-		if missing[m] {
+	for _, m := range a.Members {
+		if missing[uint8(m)] {
 			continue
 		}
 		sig := mainSig
 		if r.Chance(1, 25) {
 			sig = 1 + (mainSig % 4) // a mismatching signature
 		}
-		msgs = append(msgs, valid(&in, m, sig, end()))
+		msgs = append(msgs, validMsg(ops, &a, uint8(m), sig, end()))
 	}
 	// disturbances
+	var stale []msgIn // done messages scripted for earlier attempts
+	for _, p := range prev {
+		stale = append(stale, doneMsgs(p)...)
+	}
 	nd := r.Intn(6)
+	if len(prev) > 0 {
+		nd += r.Intn(4)
+	}
 	for i := 0; i < nd; i++ {
 		var m msgIn
 		anyMember := func() uint8 {
 			if len(excluded) > 0 && r.Bool() {
 				return excluded[r.Intn(len(excluded))]
 			}
-			return in.Members[r.Intn(len(in.Members))]
+			return member()
 		}
-		switch r.Intn(12) {
+		kinds := 12
+		if len(prev) > 0 {
+			kinds = 18
+		}
+		switch r.Intn(kinds) {
 		case 0, 1, 2: // an excluded member with valid membership confirms
 			if len(excluded) == 0 {
 				continue
 			}
-			m = valid(&in, excluded[r.Intn(len(excluded))], mainSig, end())
+			m = validMsg(ops, &a, excluded[r.Intn(len(excluded))], mainSig, end())
 		case 3: // duplicate of an included member with other content
-			m = valid(&in, in.Members[r.Intn(len(in.Members))], r.Range(1, 4), end())
+			m = validMsg(ops, &a, member(), r.Range(1, 4), end())
 		case 4: // seat not controlled by the author
-			m = valid(&in, anyMember(), mainSig, end())
+			m = validMsg(ops, &a, anyMember(), mainSig, end())
 			m.Author = 1 + (m.Author % 6)
 		case 5: // stranger
-			m = valid(&in, anyMember(), mainSig, end())
+			m = validMsg(ops, &a, anyMember(), mainSig, end())
 			m.Author = 0
 		case 6: // sender index out of the group / zero
-			m = valid(&in, []uint8{0, uint8(seats + 1), 255}[r.Intn(3)], mainSig, end())
-			m.Author = in.Operators[r.Intn(seats)]
+			m = validMsg(ops, &a, []uint8{0, uint8(seats + 1), 255}[r.Intn(3)], mainSig, end())
+			m.Author = ops[r.Intn(seats)]
 		case 7:
-			m = valid(&in, anyMember(), mainSig, end())
-			m.Message = 1 + (in.Message % 3)
+			m = validMsg(ops, &a, anyMember(), mainSig, end())
+			m.Message = 1 + (a.Message % 3)
 		case 8:
-			m = valid(&in, anyMember(), mainSig, end())
-			m.Attempt = in.Attempt + uint64(r.Range(1, 2))
-			if r.Bool() && in.Attempt > 0 {
-				m.Attempt = in.Attempt - 1
+			m = validMsg(ops, &a, anyMember(), mainSig, end())
+			m.Attempt = a.Attempt + uint64(r.Range(1, 2))
+			if r.Bool() && a.Attempt > 0 {
+				m.Attempt = a.Attempt - 1
 			}
 		case 9:
-			m = valid(&in, anyMember(), mainSig, in.Timeout+uint64(r.Range(1, 3)))
+			m = validMsg(ops, &a, anyMember(), mainSig, a.Timeout+uint64(r.Range(1, 3)))
 		case 10:
-			m = valid(&in, anyMember(), 0, end())
-		default:
+			m = validMsg(ops, &a, anyMember(), 0, end())
+		case 11:
 			m = msgIn{Done: false, Sender: anyMember(), Author: 1}
+		case 12, 13, 14: // late arrival: a message of an earlier attempt, verbatim
+			if len(stale) == 0 {
+				continue
+			}
+			m = stale[r.Intn(len(stale))]
+		case 15, 16: // everything right for this attempt except an earlier attempt's number
+			m = validMsg(ops, &a, member(), mainSig, end())
+			m.Attempt = prev[r.Intn(len(prev))].Attempt
+		default: // an earlier attempt's message re-labelled with this attempt's number
+			if len(stale) == 0 {
+				continue
+			}
+			m = stale[r.Intn(len(stale))]
+			m.Attempt = a.Attempt
 		}
 		msgs = append(msgs, m)
 	}
+	// sometimes every message of the previous attempt arrives (again) first
+	var lead []msgIn
+	if len(prev) > 0 && r.Chance(1, 5) {
+		lead = doneMsgs(prev[len(prev)-1])
+	}
 	// shuffle, then split into the two phases
 	p := r.Perm(len(msgs))
-	sh := make([]msgIn, len(msgs))
-	for i, j := range p {
-		sh[i] = msgs[j]
+	sh := make([]msgIn, 0, len(lead)+len(msgs))
+	sh = append(sh, lead...)
+	for _, j := range p {
+		sh = append(sh, msgs[j])
 	}
 	cut := len(sh)
 	if r.Chance(1, 3) {
 		cut = r.Intn(len(sh) + 1)
 	}
-	in.Phase1, in.Phase2 = sh[:cut], sh[cut:]
+	a.Phase1, a.Phase2 = sh[:cut], sh[cut:]
+	return a
+}
+
+func randomHistory(r *lib.Rng) input {
+	seats := r.Range(3, 9)
+	n := r.Range(2, 4)
+	if r.Chance(1, 14) {
+		seats, n = r.Range(20, 40), 2
+	}
+	nops := r.Range(1, seats)
+	if nops > 6 {
+		nops = 6
+	}
+	in := input{Operators: make([]int, seats)}
+	for i := range in.Operators {
+		in.Operators[i] = 1 + r.Intn(nops)
+	}
+	message, attempt, timeout := r.Range(1, 3), uint64(r.Range(1, 5)), uint64(r.Range(100, 1500))
+	for k := 0; k < n; k++ {
+		in.Attempts = append(in.Attempts, randomAttempt(r, in.Operators, message, attempt, timeout, in.Attempts))
+		if r.Chance(1, 8) {
+			// listen() again with the SAME attempt number: other message or an earlier timeout
+			if r.Bool() {
+				message = 1 + (message % 3)
+			} else {
+				timeout = uint64(r.Range(50, int(timeout)))
+			}
+			continue
+		}
+		attempt++
+		if r.Chance(1, 8) {
+			attempt++
+		}
+		timeout += uint64(r.Range(50, 800))
+		if r.Chance(1, 12) {
+			message = 1 + (message % 3)
+		}
+	}
 	return in
 }
 
@@ -581,47 +779,79 @@ func main() {
 	var jobs []*job
 	add := func(id string, in input) { jobs = append(jobs, &job{id: id, in: in}) }
 
-	// --- corpus
-	base := input{Operators: []int{1, 1, 2, 3, 3}, Message: 1, Attempt: 2, Timeout: 1000, Members: []uint8{1, 2, 3}}
+	// --- corpus: single attempts
+	ops := []int{1, 1, 2, 3, 3}
+	base := attemptIn{Message: 1, Attempt: 2, Timeout: 1000, Members: []int{1, 2, 3}}
+	v := func(a *attemptIn, sender uint8, sig int, end uint64) msgIn { return validMsg(ops, a, sender, sig, end) }
+	single := func(id string, a attemptIn) { add(id, input{Operators: ops, Attempts: []attemptIn{a}}) }
 	{
-		in := base // the witness of the repaired defect: excluded member 4 completes the count, member 3 never confirmed
-		in.Phase1 = []msgIn{valid(&in, 1, 1, 501), valid(&in, 2, 1, 502), valid(&in, 4, 1, 504)}
-		add("corpus-excluded-member-completes-count", in)
+		a := base // the witness of the repaired defect: excluded member 4 completes the count, member 3 never confirmed
+		a.Phase1 = []msgIn{v(&a, 1, 1, 501), v(&a, 2, 1, 502), v(&a, 4, 1, 504)}
+		single("corpus-excluded-member-completes-count", a)
 	}
 	{
-		in := base
-		in.Phase1 = []msgIn{valid(&in, 1, 1, 501), valid(&in, 2, 1, 502), valid(&in, 3, 1, 503)}
-		add("corpus-happy-path", in)
+		a := base
+		a.Phase1 = []msgIn{v(&a, 1, 1, 501), v(&a, 2, 1, 502), v(&a, 3, 1, 503)}
+		single("corpus-happy-path", a)
 	}
 	{
-		in := base // excluded member first, then all included: must still complete with 1,2,3 only
-		in.Phase1 = []msgIn{valid(&in, 5, 2, 999), valid(&in, 1, 1, 501), valid(&in, 2, 1, 502), valid(&in, 3, 1, 503)}
-		add("corpus-excluded-then-all-included", in)
+		a := base // excluded member first, then all included: must still complete with 1,2,3 only
+		a.Phase1 = []msgIn{v(&a, 5, 2, 999), v(&a, 1, 1, 501), v(&a, 2, 1, 502), v(&a, 3, 1, 503)}
+		single("corpus-excluded-then-all-included", a)
 	}
 	{
-		in := base
-		in.Phase1 = []msgIn{valid(&in, 1, 1, 501), valid(&in, 2, 1, 502)}
-		in.Phase2 = []msgIn{valid(&in, 4, 1, 504), valid(&in, 3, 1, 1000)}
-		add("corpus-concurrent-arrival", in)
+		a := base
+		a.Phase1 = []msgIn{v(&a, 1, 1, 501), v(&a, 2, 1, 502)}
+		a.Phase2 = []msgIn{v(&a, 4, 1, 504), v(&a, 3, 1, 1000)}
+		single("corpus-concurrent-arrival", a)
 	}
 	{
-		in := base
-		in.Phase1 = []msgIn{valid(&in, 1, 1, 501), valid(&in, 2, 3, 502), valid(&in, 3, 1, 503)}
-		add("corpus-mismatching-signature", in)
+		a := base
+		a.Phase1 = []msgIn{v(&a, 1, 1, 501), v(&a, 2, 3, 502), v(&a, 3, 1, 503)}
+		single("corpus-mismatching-signature", a)
 	}
 	{
-		in := base
-		in.Phase1 = []msgIn{valid(&in, 1, 1, 501), valid(&in, 1, 1, 700), valid(&in, 2, 1, 1001), valid(&in, 3, 0, 5), valid(&in, 2, 1, 1000)}
-		add("corpus-duplicate-late-nil", in)
+		a := base
+		a.Phase1 = []msgIn{v(&a, 1, 1, 501), v(&a, 1, 1, 700), v(&a, 2, 1, 1001), v(&a, 3, 0, 5), v(&a, 2, 1, 1000)}
+		single("corpus-duplicate-late-nil", a)
+	}
+	// --- corpus: retries on one signingDoneCheck
+	first := attemptIn{Message: 1, Attempt: 1, Timeout: 1000, Members: []int{1, 2, 3, 4}}
+	first.Phase1 = []msgIn{v(&first, 1, 1, 101), v(&first, 2, 1, 102), v(&first, 3, 1, 103)} // 4 never confirms
+	{
+		// attempt 2 = {1,2,5}, nobody confirms: the three confirmations of attempt 1 must not count
+		second := attemptIn{Message: 1, Attempt: 2, Timeout: 2000, Members: []int{1, 2, 5}}
+		add("corpus-retry-nobody-confirms-second-attempt", input{Operators: ops, Attempts: []attemptIn{first, second}})
+	}
+	{
+		// attempt 2 = {1,2,5}, all confirm: the stale entries of 1 and 2 must not shadow the new ones
+		second := attemptIn{Message: 1, Attempt: 2, Timeout: 2000, Members: []int{1, 2, 5}}
+		second.Phase1 = []msgIn{v(&second, 1, 2, 1101), v(&second, 2, 2, 1102), v(&second, 5, 2, 1105)}
+		add("corpus-retry-all-confirm-second-attempt", input{Operators: ops, Attempts: []attemptIn{first, second}})
+	}
+	{
+		// a completed attempt, then the same members again with attempt 1's messages arriving late
+		// and only two new confirmations, then a third attempt completed during the wait
+		a1 := attemptIn{Message: 1, Attempt: 1, Timeout: 1000, Members: []int{1, 2, 3}}
+		a1.Phase1 = []msgIn{v(&a1, 1, 1, 101), v(&a1, 2, 1, 102), v(&a1, 3, 1, 103)}
+		a2 := attemptIn{Message: 1, Attempt: 2, Timeout: 2000, Members: []int{1, 2, 3}}
+		a2.Phase1 = append(append([]msgIn{}, a1.Phase1...), v(&a2, 1, 2, 1101))
+		a2.Phase2 = []msgIn{a1.Phase1[2], v(&a2, 2, 2, 1102)}
+		a3 := attemptIn{Message: 1, Attempt: 3, Timeout: 3000, Members: []int{2, 3, 4}}
+		a3.Phase1 = []msgIn{a2.Phase1[3], a2.Phase2[1], v(&a3, 2, 3, 2102)}
+		a3.Phase2 = []msgIn{a1.Phase1[2], v(&a3, 3, 3, 2103), v(&a3, 4, 3, 2999)}
+		add("corpus-retry-late-arrivals-three-attempts", input{Operators: ops, Attempts: []attemptIn{a1, a2, a3}})
 	}
 
-	// --- random attempts
-	n := o.Count(500, 5000)
+	// --- random histories
+	n := o.Count(260, 2600)
 	for i := 0; i < n; i++ {
-		add(fmt.Sprintf("rand-%d", i), randomCase(rng.Fork(fmt.Sprintf("rand%d", i))))
+		add(fmt.Sprintf("rand-%d", i), randomHistory(rng.Fork(fmt.Sprintf("rand%d", i))))
 	}
 	runAll(jobs, em, 48)
-	em.Close("a case is one signing attempt with a two-phase history of done messages run through the real "+
-		"signingDoneCheck (listen + waitUntilAllDone); distinct by the whole case term; non-trivial when >= 2 "+
-		"included members confirm and there is an excluded sender, a duplicate or a concurrent arrival", nil)
+	em.Close("a case is a history of 1-4 signing attempts on ONE signingDoneCheck (listen + waitUntilAllDone per "+
+		"attempt, two-phase script of done messages each: valid, excluded senders, stale attempt numbers, late arrivals of "+
+		"earlier attempts, duplicates, wrong message/signature/seat); distinct by the whole case term; non-trivial when "+
+		"in >= 2 attempts >= 2 included members confirm and there is a stale message, an excluded sender, a duplicate "+
+		"or a concurrent arrival (single-attempt corpus cases: one confirmation and one such disturbance)", nil)
 }
